@@ -66,6 +66,23 @@ fn tbl_put(name: &str, h: H) {
     }
 }
 
+fn tbl_has(name: &str) -> bool {
+    TBL.lock().unwrap_or_else(|p| p.into_inner()).as_ref().map(|m| m.contains_key(name)).unwrap_or(false)
+}
+
+/// A handle created by another thread of the same phase may not exist yet: yield until it does
+fn tbl_wait(name: &str) {
+    if name.is_empty() {
+        return;
+    }
+    let mut n = 0;
+    while !tbl_has(name) && n < 100000 {
+        rt().sched(K::Shim(multiqueue2::verif_hooks::OpKind::Yield), 0, 0);
+        rt().done(K::Shim(multiqueue2::verif_hooks::OpKind::Yield), 0, 0, 0, true);
+        n += 1;
+    }
+}
+
 fn tid() -> usize {
     rt::TID.with(|c| c.get()).unwrap_or(0)
 }
@@ -176,6 +193,9 @@ fn exec_op(op: &Value, fut_default: bool) -> bool {
     let task = tid();
     let mut ok = true;
     set_retrying(false);
+    if name != "nop" {
+        tbl_wait(hn);
+    }
     match name {
         "send" | "start_send" | "fsend" => {
             let v = op["v"].as_u64().unwrap_or(0);
